@@ -54,6 +54,11 @@ Named == {Commutator,
           \* spline factors of order 0 (as in the diffusion example) and 2
           SplO(0), SplO(2), B2("Prod", SplO(0), Dn(1)), S1("ScalL", "T", R(-1, 2), B2("Prod", SplO(0), Dn(1))),
           B2("Sum", Dn(2), SplO(2)), B2("Prod", Xn(1), SplO(2)), S1("SubSL", "T", RTwo, SplO(0)),
+          \* both operands of a binary node of the same C++ type, different run-time state
+          B2("Prod", S1("ScalL", "T", RTwo, Xn(1)), S1("ScalL", "T", R(1, 2), Xn(1))),
+          B2("Sum", S1("ScalL", "T", RTwo, Dn(1)), S1("ScalL", "T", FromInt(3), Dn(1))),
+          B2("Diff", S1("Div", "T", RTwo, Xn(1)), S1("Div", "T", FromInt(4), Xn(1))),
+          B2("Diff", S1("ScalR", "int", RTwo, Dn(1)), S1("ScalR", "int", FromInt(3), Dn(1))),
           \* higher powers of x inside expressions (binomial expansion beyond n = 3)
           B2("Prod", Xn(4), Dn(1)), B2("Sum", Xn(4), Dn(2)), S1("ScalL", "T", R(1, 2), Xn(4)),
           B2("Diff", Xn(4), B2("Prod", Xn(2), Xn(2)))}
